@@ -24,6 +24,7 @@ type nState struct {
 	NUMA    []string // per core numa node id ("" = no NUMA)
 	NMemCap map[string]int64
 	NMemUse map[string]int64
+	Base    int `json:",omitempty"` // share base the state was built for: > 0 = the recorded total cpu usage is the per-core usage in cores
 }
 
 func (s *nState) info() *cpumemtypes.NodeResourceInfo {
@@ -35,6 +36,9 @@ func (s *nState) info() *cpumemtypes.NodeResourceInfo {
 		capR.CPUMap[id] = s.Cap[i]
 		useR.CPUMap[id] = s.Use[i]
 		tot += s.Use[i]
+		if s.Base > 0 {
+			useR.CPU = float64(tot) / float64(s.Base)
+		}
 		if len(s.NUMA) > 0 && s.NUMA[i] != "" {
 			capR.NUMA[id] = s.NUMA[i]
 			useR.NUMA[id] = s.NUMA[i]
@@ -99,7 +103,7 @@ func enumNodeStates(k, base int, memUses []int64, withNUMA bool) []*nState {
 			}
 			for _, mu := range all {
 				if !numaOnly[mu] {
-					out = append(out, &nState{Cap: caps, Use: uses, MemCap: 100, MemUse: mu})
+					out = append(out, &nState{Cap: caps, Use: uses, MemCap: 100, MemUse: mu, Base: base})
 				}
 				if withNUMA && k >= 2 {
 					numa := make([]string, k)
@@ -120,7 +124,7 @@ func enumNodeStates(k, base int, memUses []int64, withNUMA bool) []*nState {
 								if u0+u1 > mu {
 									continue
 								}
-								out = append(out, &nState{Cap: caps, Use: uses, MemCap: 100, MemUse: mu, NUMA: numa,
+								out = append(out, &nState{Cap: caps, Use: uses, MemCap: 100, MemUse: mu, Base: base, NUMA: numa,
 									NMemCap: map[string]int64{"0": nc[0], "1": nc[1]}, NMemUse: map[string]int64{"0": u0, "1": u1}})
 							}
 						}
